@@ -26,6 +26,7 @@ SHAPES = [
     ("expand", [[1, 0], [0, 1]], True, Q),
     ("expand", [[1, 1]], False, Q, dict(params=dict(built="merge"))), ("expand", [[1, 0], [0, 1]], True, Q, dict(params=dict(built="merge"))),
     ("expand", [[1, 1]], False, Q, dict(params=dict(records_as="iter"))),
+    ("expand", [[1, 0]], False, T, dict(params=dict(wide=12), budget=900)),
     ("expand", [[2, 2]], True, T), ("expand", [[1, 1], [1, 1]], True, T, dict(budget=900, shard=6)),
     ("expand", [[1, 0], [1, 0], [1, 0]], False, T, dict(budget=1500, shard=8)),
     ("expand", [[2, 2], [2, 2]], True, T, dict(budget=2400, shard=8)),
